@@ -2,12 +2,6 @@ package rapid
 
 // L-PRUNE (C04, C01): a recording, pruned of its discarded groups, replays to the same values.
 
-func b2u(b bool) uint64 {
-	if b {
-		return 1
-	}
-	return 0
-}
 
 // pruneReplay runs draw on a recording stream over L symbolic words, prunes the recording and
 // replays it through a fresh buffer stream; values and verdict must be identical.
